@@ -81,6 +81,7 @@ impl Check for C08 {
             Phase { name: "all entry orders of small headers", cases: scale(if q { 1500 } else { 6000 }, b), exhaustive: false },
             Phase { name: "all 128 subsets of the typed fields", cases: 128, exhaustive: true },
             Phase { name: "every ordered pair of the seven typed entries (both orders, incl. IV with Partial IV) and every typed entry twice", cases: 49, exhaustive: true },
+            Phase { name: "text content types: each of the 25 Unicode White_Space characters and 12 look-alikes that are not white space, leading / trailing / inner; '/' counts 0-3", cases: 37 + 8, exhaustive: true },
         ]
     }
     fn run_case(&self, ctx: &mut Ctx, phase: usize, idx: u64) {
@@ -158,6 +159,39 @@ impl Check for C08 {
                             decode_oracle(ctx, Ty::Header, &bytes, "Header::from_slice(permuted)", false);
                         });
                     }
+                }
+            }
+            7 => {
+                const WS: [char; 25] = ['\u{9}', '\u{a}', '\u{b}', '\u{c}', '\u{d}', ' ', '\u{85}', '\u{a0}', '\u{1680}', '\u{2000}', '\u{2001}', '\u{2002}', '\u{2003}', '\u{2004}', '\u{2005}', '\u{2006}', '\u{2007}', '\u{2008}', '\u{2009}', '\u{200a}', '\u{2028}', '\u{2029}', '\u{202f}', '\u{205f}', '\u{3000}'];
+                const NOT_WS: [char; 12] = ['\u{0}', '\u{1c}', '\u{1d}', '\u{1e}', '\u{1f}', '\u{7f}', '\u{180e}', '\u{200b}', '\u{200c}', '\u{2060}', '\u{feff}', '\u{e9}'];
+                let mut texts: Vec<String> = Vec::new();
+                if idx < 37 {
+                    let c = if idx < 25 { WS[idx as usize] } else { NOT_WS[(idx - 25) as usize] };
+                    for base in ["a/b", "text/plain", "\u{e9}/\u{2603}", "/"] {
+                        texts.push(format!("{}{}", c, base));
+                        texts.push(format!("{}{}", base, c));
+                        texts.push(format!("{}{}{}", c, base, c));
+                        texts.push(base.replacen('/', &format!("{}/", c), 1));
+                        texts.push(format!("{}{}{}", c, c, base));
+                    }
+                    texts.push(c.to_string());
+                    texts.push(format!("{}/{}", c, c));
+                } else {
+                    let k = idx - 37;
+                    for base in ["", "a", "ab", "\u{e9}", "a b"] {
+                        // k slashes (0..3) at the start, end, and spread
+                        let n = (k % 4) as usize;
+                        texts.push(format!("{}{}", "/".repeat(n), base));
+                        texts.push(format!("{}{}", base, "/".repeat(n)));
+                        texts.push(std::iter::repeat(base).take(n + 1).collect::<Vec<_>>().join("/"));
+                        if k >= 4 {
+                            texts.push(format!(" {}{}", "/".repeat(n), base));
+                        }
+                    }
+                }
+                for t in texts {
+                    let m = Item::Map(vec![(Item::int(3), Item::Text(t))]);
+                    through_carriers(ctx, &m, 0, true, true);
                 }
             }
             6 => {
